@@ -1,5 +1,6 @@
 import Octo.Gen.VmessHdrGen
 import Octo.Proofs.VmessBodyGen
+import Octo.Proofs.VmessAddrGen
 import Octo.Model.Vmess
 /-!
   The generated code (`Octo.VmessHdrGen`, written by `translate_vmesshdr.py` from `server/vmess.rs`, `client/vmess.rs`,
@@ -494,6 +495,885 @@ theorem matching_nil (ov : Bool) (w : W) (a : Bytes) : AuthId.matching X ov w a 
   simp only [AuthId.matching, Flow.forIn, bind_next, run_ret]
 
 end server
+
+/-! ## Part 3b — `auth_id::matching` = `authIdMatch` -/
+section matching
+variable {CM XR W GCM : Type} {X : Ext CM XR W GCM} {C : Crypto}
+
+theorem i64_spec (x : I64) : (x.bits.toNat < 2 ^ 63 ∧ x.toInt = (x.bits.toNat : Int)) ∨
+    (2 ^ 63 ≤ x.bits.toNat ∧ x.bits.toNat < 2 ^ 64 ∧ x.toInt = (x.bits.toNat : Int) - 2 ^ 64) := by
+  have := x.bits.toNat_lt
+  unfold I64.toInt
+  split
+  · left; exact ⟨by assumption, rfl⟩
+  · right; exact ⟨by omega, by omega, rfl⟩
+
+theorem i64_toInt_ofNat (n : Nat) (h : n < 2 ^ 63) : (I64.ofNat n).toInt = n := by
+  have e : (I64.ofNat n).bits.toNat = n := UInt64.toNat_ofNat_of_lt' (by simp only [UInt64.size]; omega)
+  rcases i64_spec (I64.ofNat n) with ⟨h1, h2⟩ | ⟨h1, h2, h3⟩ <;> omega
+
+theorem i64_from_be (b : Bytes) (h : b.length = 8) : (I64.from_be_bytes b).toInt = Vmess.i64 b := by
+  have hl := beNat_lt b
+  rw [h] at hl
+  have e : (I64.from_be_bytes b).bits.toNat = rdBE b := by
+    show (UInt64.ofNat (beNat b)).toNat = rdBE b
+    rw [UInt64.toNat_ofNat_of_lt' (by simp only [UInt64.size]; omega)]; rfl
+  have hm : Vmess.i64 b = if rdBE b < 2 ^ 63 then (rdBE b : Int) else (rdBE b : Int) - 2 ^ 64 := rfl
+  rw [hm]
+  rcases i64_spec (I64.from_be_bytes b) with ⟨h1, h2⟩ | ⟨h1, h2, h3⟩
+  · rw [if_pos (by omega)]; omega
+  · rw [if_neg (by omega)]; omega
+
+theorem i64_sub_toInt (a b : I64) (h : I64.subOk a b = true) : (I64.sub a b).toInt = a.toInt - b.toInt := by
+  simp only [I64.subOk, decide_eq_true_eq] at h
+  have hs : (I64.sub a b).bits.toNat = (2 ^ 64 - b.bits.toNat + a.bits.toNat) % 2 ^ 64 := UInt64.toNat_sub a.bits b.bits
+  rcases i64_spec a with ⟨a1, a2⟩ | ⟨a1, a2, a3⟩ <;> rcases i64_spec b with ⟨b1, b2⟩ | ⟨b1, b2, b3⟩ <;>
+    rcases i64_spec (I64.sub a b) with ⟨c1, c2⟩ | ⟨c1, c2, c3⟩ <;> omega
+
+theorem i64_abs_toInt (a : I64) (h : I64.absOk a = true) : (I64.abs a).toInt = (a.toInt.natAbs : Int) := by
+  simp only [I64.absOk, decide_eq_true_eq] at h
+  by_cases hneg : a.toInt < 0
+  · have e : I64.abs a = ⟨0 - a.bits⟩ := by simp only [I64.abs, hneg, if_true]
+    have hs : (I64.abs a).bits.toNat = (2 ^ 64 - a.bits.toNat + 0) % 2 ^ 64 := by
+      rw [e]; show ((0 : UInt64) - a.bits).toNat = _; rw [UInt64.toNat_sub]; rfl
+    rcases i64_spec a with ⟨a1, a2⟩ | ⟨a1, a2, a3⟩ <;> rcases i64_spec (I64.abs a) with ⟨c1, c2⟩ | ⟨c1, c2, c3⟩ <;> omega
+  · have e : I64.abs a = a := by simp only [I64.abs, hneg, if_false]
+    rw [e]; omega
+
+/-- the guard under which the code's i64 window test is the model's: the subtraction and `abs` do not overflow -/
+def WindowGuard (t : Int) (now : Nat) : Prop := -(2 ^ 63 : Int) < t - now
+
+theorem window_eq (t : I64) (now : Nat) (hn : now < 2 ^ 62) (hg : WindowGuard t.toInt now) :
+    I64.subOk t (I64.ofNat now) = true ∧ I64.absOk (I64.sub t (I64.ofNat now)) = true ∧
+      I64.le (I64.abs (I64.sub t (I64.ofNat now))) (I64.ofNat 120) = decide ((t.toInt - (now : Int)).natAbs ≤ Consts.vmessAuthWindow) := by
+  have hno := i64_toInt_ofNat now (by omega)
+  have h120 := i64_toInt_ofNat 120 (by decide)
+  have hr : -(2 ^ 63 : Int) ≤ t.toInt ∧ t.toInt < 2 ^ 63 := by
+    rcases i64_spec t with ⟨a1, a2⟩ | ⟨a1, a2, a3⟩ <;> omega
+  have hs : I64.subOk t (I64.ofNat now) = true := by
+    simp only [I64.subOk, decide_eq_true_eq, hno, WindowGuard] at hg ⊢; omega
+  have hst := i64_sub_toInt _ _ hs
+  have ha : I64.absOk (I64.sub t (I64.ofNat now)) = true := by
+    simp only [I64.absOk, decide_eq_true_eq, hst, hno, WindowGuard] at hg ⊢; omega
+  refine ⟨hs, ha, ?_⟩
+  simp only [I64.le, i64_abs_toInt _ ha, hst, hno, h120, Consts.vmessAuthWindow]
+  congr 1
+  apply propext
+  constructor <;> intro h <;> omega
+
+/-- one key of the table, as the model tests it -/
+def keyTest (C : Crypto) (authId : Bytes) (now : Nat) (key : Bytes) : Bool :=
+  let cur := C.aesDec (Vmess.kdf16 C key [saltAuthId]) authId
+  decide (rdBE (cur.drop 12) = C.crc32 (cur.take 12)) && decide ((Vmess.i64 (cur.take 8) - (now : Int)).natAbs ≤ Consts.vmessAuthWindow)
+
+theorem authIdMatch_eq (C : Crypto) (authId : Bytes) (keys : List Bytes) (now : Nat) :
+    authIdMatch C authId keys now = keys.find? (keyTest C authId now) := rfl
+
+/-- the guard of `matching_eq`: for every configured key under which the auth id carries a valid CRC, the timestamp is not more than
+2^63 seconds before the clock value (outside it the code panics / wraps: `window_wrap_difference`) -/
+def MatchGuard (C : Crypto) (authId : Bytes) (keys : List Bytes) (now : Nat) : Prop :=
+  ∀ key ∈ keys, let cur := C.aesDec (Vmess.kdf16 C key [saltAuthId]) authId
+    rdBE (cur.drop 12) = C.crc32 (cur.take 12) → WindowGuard (Vmess.i64 (cur.take 8)) now
+
+theorem crc_test (A : HExtOk X C) (cur : Bytes) (h : cur.length = 16) :
+    (I32.from_be_bytes (cur.drop 12) == U32.as_i32 (X.crc32 (cur.take 12))) = decide (rdBE (cur.drop 12) = C.crc32 (cur.take 12)) := by
+  have hl := beNat_lt (cur.drop 12)
+  have hd : (cur.drop 12).length = 4 := by simp [h]
+  rw [hd] at hl
+  have e1 : (UInt32.ofNat (beNat (cur.drop 12))).toNat = rdBE (cur.drop 12) := by
+    rw [UInt32.toNat_ofNat_of_lt' (by simp only [UInt32.size]; omega)]; rfl
+  have e2 := A.crc (cur.take 12)
+  simp only [I32.from_be_bytes, U32.as_i32]
+  by_cases hc : rdBE (cur.drop 12) = C.crc32 (cur.take 12)
+  · have : UInt32.ofNat (beNat (cur.drop 12)) = X.crc32 (cur.take 12) := UInt32.toNat_inj.mp (by rw [e1, e2, hc])
+    simp [this, hc]
+  · have : UInt32.ofNat (beNat (cur.drop 12)) ≠ X.crc32 (cur.take 12) := by
+      intro he; apply hc; rw [← e1, he, e2]
+    simp [this, hc]
+
+/-- **`auth_id::matching` = `authIdMatch`**, every key table, every 16-byte auth id, both overflow profiles, inside the guard:
+no panic, `Ok`, the model's answer (the first configured key under which the token has a valid CRC and a timestamp within the
+window), and the clock still shows the same time -/
+theorem matching_eq (A : HExtOk X C) (hC : C.Lawful) (ov : Bool) (authId : Bytes) (ha : authId.length = 16) :
+    ∀ (keys : List Bytes) (w : W), MatchGuard C authId keys (A.nowOf w) →
+      ∃ w', AuthId.matching X ov w authId keys = PWGen.Res.ok (w', RResult.ok (authIdMatch C authId keys (A.nowOf w))) ∧
+        A.nowOf w' = A.nowOf w := by
+  intro keys
+  induction keys with
+  | nil => intro w _; exact ⟨w, matching_nil ov w authId, rfl⟩
+  | cons key rest ih =>
+    intro w hg
+    have hcur : (C.aesDec (Vmess.kdf16 C key [saltAuthId]) authId).length = 16 := hC.aes_dec_len _ _
+    have hgk := hg key (List.mem_cons_self)
+    have hgr : MatchGuard C authId rest (A.nowOf w) := fun k hk => hg k (List.mem_cons_of_mem _ hk)
+    obtain ⟨w1, hnow, hw1⟩ := A.now w
+    have e12' : (12 : Usize).toNat = 12 := rfl
+    have e8 : (8 : Usize).toNat = 8 := rfl
+    have hcopy : ∀ ρ, (Flow.copy_from_slice (List.replicate 16 (0 : UInt8)) authId : Flow _ ρ) = Flow.next authId := by
+      intro ρ; simp [Flow.copy_from_slice, ha]
+    generalize hcd : C.aesDec (Vmess.kdf16 C key [saltAuthId]) authId = cur at hcur hgk
+    have hecb := A.ecb (Vmess.kdf16 C key [saltAuthId]) authId (kdf16_length _ _ _) ha
+    rw [hcd] at hecb
+    have hs12 : ∀ ρ, (Flow.slice_to cur (12 : Usize) : Flow _ ρ) = Flow.next (cur.take 12) := by
+      intro ρ; simp [Flow.slice_to, e12', hcur]
+    have hsp : ∀ ρ, (Flow.split_at cur (12 : Usize) : Flow _ ρ) = Flow.next (cur.take 12, cur.drop 12) := by
+      intro ρ; simp [Flow.split_at, e12', hcur]
+    have hs8 : ∀ ρ, (Flow.slice_to (cur.take 12) (8 : Usize) : Flow _ ρ) = Flow.next (cur.take 8) := by
+      intro ρ; simp [Flow.slice_to, e8, hcur, List.take_take]
+    have hlen4 : decide ((cur.drop 12).length = 4) = true := by simp [hcur]
+    have hfind : authIdMatch C authId (key :: rest) (A.nowOf w) =
+        if keyTest C authId (A.nowOf w) key then some key else authIdMatch C authId rest (A.nowOf w) := by
+      simp only [authIdMatch_eq, List.find?_cons]; split <;> simp_all
+    have hkt : keyTest C authId (A.nowOf w) key =
+        (decide (rdBE (cur.drop 12) = C.crc32 (cur.take 12)) && decide ((Vmess.i64 (cur.take 8) - (A.nowOf w : Int)).natAbs ≤ Consts.vmessAuthWindow)) := by
+      simp only [keyTest, hcd]
+    rw [hfind, hkt]
+    by_cases hc : rdBE (cur.drop 12) = C.crc32 (cur.take 12)
+    · have hct : (I32.from_be_bytes (cur.drop 12) == U32.as_i32 (X.crc32 (cur.take 12))) = true := by
+        rw [crc_test A cur hcur]; simp [hc]
+      have hwin := window_eq (I64.from_be_bytes (cur.take 8)) (A.nowOf w) (A.now_lt w)
+        (by rw [i64_from_be _ (by simp [hcur])]; exact hgk hc)
+      rw [i64_from_be _ (by simp [hcur])] at hwin
+      by_cases hwd : (Vmess.i64 (cur.take 8) - (A.nowOf w : Int)).natAbs ≤ Consts.vmessAuthWindow
+      · refine ⟨w1, ?_, hw1⟩
+        have hle := hwin.2.2
+        simp only [hwd, decide_true] at hle
+        rw [AuthId.matching]
+        simp only [Flow.forIn, hcopy, bind_next, A.kdf16, salt_auth_id, hecb, call_ok, hs12, hsp, hs8, hlen4, check_true, hct, if_true,
+          hnow, question_ok, hwin.1, hwin.2.1, arith_true, hle, bind_ret, run_ret, hc, hwd, decide_true, Bool.and_self]
+      · obtain ⟨w', h1, h2⟩ := ih w1 (by rw [hw1]; exact hgr)
+        refine ⟨w', ?_, by rw [h2, hw1]⟩
+        have hle := hwin.2.2
+        simp only [hwd, decide_false] at hle
+        rw [hw1] at h1
+        rw [AuthId.matching] at h1 ⊢
+        simp only [Flow.forIn, hcopy, bind_next, A.kdf16, salt_auth_id, hecb, call_ok, hs12, hsp, hs8, hlen4, check_true, hct, if_true,
+          hnow, question_ok, hwin.1, hwin.2.1, arith_true, hle, Bool.false_eq_true, if_false, hc, hwd, decide_true, decide_false,
+          Bool.and_false] at h1 ⊢
+        exact h1
+    · have hct : (I32.from_be_bytes (cur.drop 12) == U32.as_i32 (X.crc32 (cur.take 12))) = false := by
+        rw [crc_test A cur hcur]; simp [hc]
+      obtain ⟨w', h1, h2⟩ := ih w hgr
+      refine ⟨w', ?_, h2⟩
+      rw [AuthId.matching] at h1 ⊢
+      simp only [Flow.forIn, hcopy, bind_next, A.kdf16, salt_auth_id, hecb, call_ok, hs12, hsp, hs8, hlen4, check_true, hct,
+        Bool.false_eq_true, if_false, hc, decide_false, Bool.false_and] at h1 ⊢
+      exact h1
+
+end matching
+
+/-! ## Part 4 — `encrypt::open_header` = `openHeader` -/
+section openhdr
+variable {CM XR W GCM : Type} {X : Ext CM XR W GCM} {C : Crypto}
+
+theorem io_slice {ρ : Type} (src : List UInt8) (p n : Usize) (h : p.toNat + n.toNat ≤ src.length) :
+    (Flow.io_copy_to_slice ⟨src, p⟩ n : Flow _ ρ) = Flow.next (⟨src, p + n⟩, (src.drop p.toNat).take n.toNat) := by
+  simp only [Flow.io_copy_to_slice]; rw [if_pos (by omega)]
+theorem io_bytes {ρ : Type} (src : List UInt8) (p n : Usize) (h : p.toNat + n.toNat ≤ src.length) :
+    (Flow.io_copy_to_bytes ⟨src, p⟩ n : Flow _ ρ) = Flow.next (⟨src, p + n⟩, (src.drop p.toNat).take n.toNat) := by
+  simp only [Flow.io_copy_to_bytes]; rw [if_pos (by omega)]
+
+/-- the model's outcome as the generated function reports it: (final `*src`, returned value) -/
+def embedOpen (src : Bytes) : Octo.Res (Bytes × Nat) → PWGen.Res (List UInt8 × RResult (Option (List UInt8)))
+  | .ok (h, n) => .ok (src.drop n, RResult.ok (some h))
+  | .more => .ok (src, RResult.ok none)
+  | .err => .ok (src, RResult.err)
+  | _ => .panic
+
+theorem e58 : ((((Encrypt.TAG_SIZE + (2 : Usize)) + Encrypt.TAG_SIZE) + (8 : Usize)) + Encrypt.TAG_SIZE) = 58 := by decide
+theorem ok58 : U64.addOk Encrypt.TAG_SIZE (2 : Usize) = true ∧ U64.addOk (Encrypt.TAG_SIZE + (2 : Usize)) Encrypt.TAG_SIZE = true ∧
+    U64.addOk ((Encrypt.TAG_SIZE + (2 : Usize)) + Encrypt.TAG_SIZE) (8 : Usize) = true ∧
+    U64.addOk (((Encrypt.TAG_SIZE + (2 : Usize)) + Encrypt.TAG_SIZE) + (8 : Usize)) Encrypt.TAG_SIZE = true := by decide
+theorem len_rep (n : Nat) (h : n < 2 ^ 64) : Cursor.len (List.replicate n (0 : UInt8)) = UInt64.ofNat n := by
+  simp [Cursor.len]
+
+/-- **`encrypt::open_header` = `openHeader`**: every key, every buffer below 2^64 bytes, both profiles: never a panic; `Ok(None)` with the
+buffer untouched until the whole sealed header (16 + 18 + 8 + length + 16 bytes) is there — the fixed part is only peeked through the
+cursor —; `Err` with the buffer untouched when the sealed length or the sealed header is not authentic under the key; otherwise the
+opened header, and exactly the sealed header consumed -/
+theorem open_header_eq (A : HExtOk X C) (hC : C.Lawful) (ov : Bool) (key src : Bytes) (hl : src.length < 2 ^ 64) :
+    Encrypt.open_header X ov key src = embedOpen src (openHeader C key src) := by
+  have e0 : (0 : Usize).toNat = 0 := rfl
+  have e16 : (16 : Usize).toNat = 16 := rfl
+  have e18' : (18 : Usize).toNat = 18 := rfl
+  have e8 : (8 : Usize).toNat = 8 := rfl
+  have e34 : (34 : Usize).toNat = 34 := rfl
+  have e42 : (42 : Usize).toNat = 42 := rfl
+  have e58n : (58 : Usize).toNat = 58 := rfl
+  have hrem0 : (IoCursor.remaining (IoCursor.new src)).toNat = src.length := by
+    simp only [IoCursor.remaining, IoCursor.new, e0, Nat.sub_zero]
+    exact UInt64.toNat_ofNat_of_lt' (by simp only [UInt64.size]; omega)
+  unfold Encrypt.open_header
+  simp only [ok58.1, ok58.2.1, ok58.2.2.1, ok58.2.2.2, arith_true, bind_next, e58]
+  by_cases h58 : src.length < 58
+  · have : decide (IoCursor.remaining (IoCursor.new src) < (58 : Usize)) = true := by
+      rw [decide_eq_true_eq, lt_iff_toNat, hrem0, e58n]; exact h58
+    have hm : openHeader C key src = .more := by simp [openHeader, h58]
+    simp only [this, if_true, bind_ret, run_ret, hm, embedOpen]
+  · have hd : decide (IoCursor.remaining (IoCursor.new src) < (58 : Usize)) = false := by
+      rw [decide_eq_false_iff_not, lt_iff_toNat, hrem0, e58n]; exact h58
+    have l16 : Cursor.len (List.replicate 16 (0 : UInt8)) = 16 := rfl
+    have l18 : Cursor.len (List.replicate 18 (0 : UInt8)) = 18 := rfl
+    have l8 : Cursor.len (List.replicate 8 (0 : UInt8)) = 8 := rfl
+    have c1 : ∀ ρ, (Flow.io_copy_to_slice (IoCursor.new src) 16 : Flow _ ρ) = Flow.next (⟨src, 16⟩, src.take 16) := by
+      intro ρ; have := io_slice (ρ := ρ) src 0 16 (by rw [e0, e16]; omega); simpa [IoCursor.new, e0, e16] using this
+    have c2 : ∀ ρ, (Flow.io_copy_to_slice ⟨src, 16⟩ 18 : Flow _ ρ) = Flow.next (⟨src, 34⟩, (src.drop 16).take 18) := by
+      intro ρ; have := io_slice (ρ := ρ) src 16 18 (by rw [e16, e18']; omega); simpa [e16, e18'] using this
+    have c3 : ∀ ρ, (Flow.io_copy_to_slice ⟨src, 34⟩ 8 : Flow _ ρ) = Flow.next (⟨src, 42⟩, (src.drop 34).take 8) := by
+      intro ρ; have := io_slice (ρ := ρ) src 34 8 (by rw [e34, e8]; omega); simpa [e34, e8] using this
+    obtain ⟨g1, hg1, hk1⟩ := A.gcm_new (Vmess.kdf16 C key [saltLengthKey, src.take 16, (src.drop 34).take 8]) (kdf16_length _ _ _)
+    obtain ⟨g2, hg2, hk2⟩ := A.gcm_new (Vmess.kdf16 C key [saltPayloadKey, src.take 16, (src.drop 34).take 8]) (kdf16_length _ _ _)
+    simp only [hd, Bool.false_eq_true, if_false, bind_next, l16, l18, l8, c1, c2, c3, A.kdf16, A.kdfn, e12, salt_length_key, salt_length_iv,
+      salt_payload_key, salt_payload_iv, hg1, hg2, question_ok]
+    have h58' : ¬ src.length < 16 + 18 + 8 + 16 := by omega
+    cases ho : C.openB .aes128gcm (Vmess.kdf16 C key [saltLengthKey, src.take 16, (src.drop 34).take 8])
+        (Vmess.kdfn C 12 key [saltLengthIv, src.take 16, (src.drop 34).take 8]) (src.take 16) ((src.drop 16).take 18) with
+    | none =>
+      have hm : openHeader C key src = .err := by simp [openHeader, h58', ho]
+      rw [A.dec_err g1 _ _ _ (by rw [hk1]; exact ho)]
+      simp only [question_err, bind_ret, run_ret, hm, embedOpen]
+    | some lb =>
+      rw [A.dec_ok g1 _ _ _ lb (by rw [hk1]; exact ho)]
+      have hlb : lb.length = 2 := by
+        have := hC.open_len _ _ _ _ _ _ ho
+        simp [List.length_take, List.length_drop] at this; omega
+      have hlt := rdBE2_lt lb hlb
+      have hti : RResult.try_into_array lb 2 = RResult.ok lb := by simp [RResult.try_into_array, hlb]
+      have hln : (U16.as_usize (U16.from_be_bytes lb)).toNat = rdBE lb := by
+        rw [u16_as_usize_toNat, U16.from_be_bytes, from_be_bytes_toNat lb hlb]
+      have hadd : (U16.as_usize (U16.from_be_bytes lb) + Encrypt.TAG_SIZE).toNat = rdBE lb + 16 := by
+        rw [add_toNat _ _ (by rw [hln]; show _ + 16 < _; omega), hln]; rfl
+      have haok : U64.addOk (U16.as_usize (U16.from_be_bytes lb)) Encrypt.TAG_SIZE = true := by
+        simp only [U64.addOk, decide_eq_true_eq, hln]; show _ + 16 < _; omega
+      have hrem : (IoCursor.remaining ⟨src, 42⟩).toNat = src.length - 42 := by
+        simp only [IoCursor.remaining, e42]
+        exact UInt64.toNat_ofNat_of_lt' (by simp only [UInt64.size]; omega)
+      simp only [question_ok, bind_next, hti, haok, arith_true]
+      by_cases hm : src.length - 42 < rdBE lb + 16
+      · have : decide (IoCursor.remaining ⟨src, 42⟩ < U16.as_usize (U16.from_be_bytes lb) + Encrypt.TAG_SIZE) = true := by
+          rw [decide_eq_true_eq, lt_iff_toNat, hrem, hadd]; exact hm
+        have hmo : openHeader C key src = .more := by simp [openHeader, h58', ho, hm]
+        simp only [this, if_true, bind_ret, run_ret, hmo, embedOpen]
+      · have hdd : decide (IoCursor.remaining ⟨src, 42⟩ < U16.as_usize (U16.from_be_bytes lb) + Encrypt.TAG_SIZE) = false := by
+          rw [decide_eq_false_iff_not, lt_iff_toNat, hrem, hadd]; exact hm
+        have cb : ∀ ρ, (Flow.io_copy_to_bytes ⟨src, 42⟩ (U16.as_usize (U16.from_be_bytes lb) + Encrypt.TAG_SIZE) : Flow _ ρ) =
+            Flow.next (⟨src, 42 + (U16.as_usize (U16.from_be_bytes lb) + Encrypt.TAG_SIZE)⟩, (src.drop 42).take (rdBE lb + 16)) := by
+          intro ρ; rw [io_bytes src 42 _ (by rw [e42, hadd]; omega), e42, hadd]
+        simp only [hdd, Bool.false_eq_true, if_false, bind_next, cb]
+        cases hh : C.openB .aes128gcm (Vmess.kdf16 C key [saltPayloadKey, src.take 16, (src.drop 34).take 8])
+            (Vmess.kdfn C 12 key [saltPayloadIv, src.take 16, (src.drop 34).take 8]) (src.take 16) ((src.drop 42).take (rdBE lb + 16)) with
+        | none =>
+          have hmo : openHeader C key src = .err := by simp [openHeader, h58', ho, hm, hh]
+          rw [A.dec_err g2 _ _ _ (by rw [hk2]; exact hh)]
+          simp only [question_err, bind_ret, run_ret, hmo, embedOpen]
+        | some h =>
+          have hmo : openHeader C key src = .ok (h, 42 + rdBE lb + 16) := by simp [openHeader, h58', ho, hm, hh]
+          rw [A.dec_ok g2 _ _ _ h (by rw [hk2]; exact hh)]
+          have hpos : (U64.as_usize (IoCursor.position ⟨src, 42 + (U16.as_usize (U16.from_be_bytes lb) + Encrypt.TAG_SIZE)⟩)).toNat = 42 + rdBE lb + 16 := by
+            simp only [U64.as_usize, IoCursor.position]
+            rw [add_toNat _ _ (by rw [e42, hadd]; omega), e42, hadd]; omega
+          have hadv : ∀ ρ, (Flow.advance src (U64.as_usize (IoCursor.position ⟨src, 42 + (U16.as_usize (U16.from_be_bytes lb) + Encrypt.TAG_SIZE)⟩)) : Flow _ ρ) =
+              Flow.next (src.drop (42 + rdBE lb + 16)) := by
+            intro ρ; simp only [Flow.advance, hpos]; rw [if_pos (by omega)]
+          simp only [question_ok, bind_next, hadv, run_ret, hmo, embedOpen]
+
+end openhdr
+
+/-! ## Part 5 — the header parse of `ServerAeadCodec::decode` = `parseRequest` -/
+section parse
+variable {CM XR W GCM : Type} {X : Ext CM XR W GCM} {C : Crypto}
+
+theorem get_u8_drop {ρ : Type} (h : List UInt8) (i : Nat) (hi : i < h.length) :
+    (Flow.get_u8 (h.drop i) : Flow _ ρ) = Flow.next (h.drop (i + 1), h.getD i 0) := by
+  have e : h.drop i = h[i] :: h.drop (i + 1) := List.drop_eq_getElem_cons hi
+  rw [e, List.getD_eq_getElem?_getD, List.getElem?_eq_getElem hi]; rfl
+theorem get_u8_zero {ρ : Type} (h : List UInt8) (hi : 0 < h.length) :
+    (Flow.get_u8 h : Flow _ ρ) = Flow.next (h.drop 1, h.getD 0 0) := by
+  have := get_u8_drop (ρ := ρ) h 0 hi; simpa using this
+theorem copy16_drop {ρ : Type} (h : List UInt8) (i : Nat) (hi : i + 16 ≤ h.length) :
+    (Flow.copy_to_slice (h.drop i) (Cursor.len (List.replicate 16 (0 : UInt8))) : Flow _ ρ) =
+      Flow.next (h.drop (i + 16), (h.drop i).take 16) := by
+  have l16 : Cursor.len (List.replicate 16 (0 : UInt8)) = 16 := rfl
+  simp only [Flow.copy_to_slice, l16, e16n, List.length_drop, List.drop_drop]
+  rw [if_pos (by omega)]
+theorem advance_drop {ρ : Type} (h : List UInt8) (i : Nat) (n : Usize) (hi : i + n.toNat ≤ h.length) :
+    (Flow.advance (h.drop i) n : Flow _ ρ) = Flow.next (h.drop (i + n.toNat)) := by
+  simp only [Flow.advance, List.length_drop, List.drop_drop]; rw [if_pos (by omega)]
+theorem get_u32_drop {ρ : Type} (h : List UInt8) (i : Nat) (hi : i + 4 ≤ h.length) :
+    (Flow.get_u32 (h.drop i) : Flow _ ρ) = Flow.next (h.drop (i + 4), UInt32.ofNat (beNat ((h.drop i).take 4))) := by
+  rw [get_u32_ok _ (by rw [List.length_drop]; omega), List.drop_drop]
+
+theorem ite_bind {α β ρ : Type} (c : Prop) [Decidable c] (a b : α) (k : α → Flow β ρ) :
+    Flow.bind (if c then Flow.next a else Flow.next b) k = k (if c then a else b) := by split <;> rfl
+
+theorem pad_toNat' (x : UInt8) : (U8.as_usize (x >>> 4)).toNat = x.toNat / 16 := by
+  rw [u8_as_usize_toNat, UInt8.toNat_shiftRight]
+  show x.toNat >>> 4 = _
+  rw [Nat.shiftRight_eq_div_pow]
+
+/-- `SecurityType::from(u8)` as a total function -/
+def secOf (v : UInt8) : SecurityType :=
+  if v == 1 then .Legacy else if v == 2 then .Auto else if v == 3 then .Aes128Gcm else if v == 4 then .Chacha20Poly1305
+  else if v == 5 then .None else if v == 6 then .Zero else .Unknown
+theorem from_u8_eval (ov : Bool) (v : UInt8) : SecurityType.From_u8_from X ov v = PWGen.Res.ok (secOf v) := by
+  simp only [SecurityType.From_u8_from, secOf]
+  repeat' split
+  all_goals rfl
+
+/-- `RequestOption::from_mask` as a total function -/
+def optsOf (m : UInt8) : List RequestOption :=
+  List.filter (fun op => ((RequestOption.as_u8 op) &&& m) != 0)
+    [.ChunkStream, .ConnectionReuse, .ChunkMasking, .GlobalPadding, .AuthenticatedLength]
+theorem from_mask_eval (ov : Bool) (m : UInt8) : RequestOption.from_mask X ov m = PWGen.Res.ok (optsOf m) := rfl
+theorem header_new_eval (ov : Bool) (v : UInt8) (c : RequestCommand) (o : List RequestOption) (sc : SecurityType)
+    (a : Octo.VmessAddrGen.Address) (id : List UInt8) : RequestHeader.new X ov v c o sc a id = PWGen.Res.ok ⟨v, c, o, sc, a, id⟩ := rfl
+
+theorem fnv_test (A : HExtOk X C) (data b4 : Bytes) (h : b4.length = 4) :
+    (X.fnv1a32 data != UInt32.ofNat (beNat b4)) = decide (rdBE b4 ≠ C.fnv1a32 data) := by
+  have hl := beNat_lt b4
+  rw [h] at hl
+  have e1 : (UInt32.ofNat (beNat b4)).toNat = rdBE b4 := by
+    rw [UInt32.toNat_ofNat_of_lt' (by simp only [UInt32.size]; omega)]; rfl
+  have e2 := A.fnv data
+  by_cases hc : rdBE b4 = C.fnv1a32 data
+  · have : X.fnv1a32 data = UInt32.ofNat (beNat b4) := UInt32.toNat_inj.mp (by rw [e1, e2, hc])
+    simp [this, hc]
+  · have : X.fnv1a32 data ≠ UInt32.ofNat (beNat b4) := by
+      intro he; apply hc; rw [← e1, ← he, e2]
+    simp [this, hc]
+
+/-- the generated command of a model command -/
+def cmdG : Cmd → RequestCommand
+  | .tcp => .TCP
+  | .udp => .UDP
+
+/-- what the generated `decode` does once the header is parsed: `new_decoder`, `decode_header`, the state change -/
+def serverFinish (X : Ext CM XR W GCM) (ov : Bool) (g : ServerAeadCodec CM XR) (w : W) (src : List UInt8) (hdr : RequestHeader)
+    (sess : ServerSession) : PWGen.Res (ServerAeadCodec CM XR × W × List UInt8 × RResult (Option InboundIn)) :=
+  match X.new_decoder hdr (.ServerSession sess) with
+  | (.ServerSession sess', RResult.ok d) =>
+    match ServerAeadCodec.decode_header X ov src hdr sess' d with
+    | .ok (src', hdr', sess'', d', res) => .ok ({ g with decode_state := .Ready hdr' sess'' d' }, w, src', res)
+    | .panic => .panic
+  | (.ServerSession _, RResult.err) => .ok (g, w, src, RResult.err)
+  | (.ClientSession _, _) => .panic
+
+/-- the request header the generated code builds from an opened header `h` that the model's parser accepts -/
+def hdrOf (h : Bytes) (x : Octo.VmessAddrGen.Address) (key : Bytes) : RequestHeader :=
+  ⟨h.getD 0 0, if h.getD 37 0 == 1 then .TCP else .UDP, optsOf (h.getD 34 0), secOf (h.getD 35 0 &&& 15), x, key⟩
+
+/-- **the header parse of the generated `decode` = `parseRequest`** (after the auth id matched `key` and `open_header` released the
+opened header `h`): NO PANIC on any authentic-but-malformed header (every cut, inconsistent lengths, unknown address type, unknown
+command, bad checksum, a name that is not UTF-8 → `Err`, state still `Init`, the sealed header consumed); on an accepted header the
+code continues with `serverFinish` on exactly the fields the model's parser yields -/
+theorem gen_server_parse (A : HExtOk X C) (ov : Bool) (g : ServerAeadCodec CM XR) (w w' : W) (buf src' key h : Bytes)
+    (hs : g.decode_state = .Init) (hl : buf.length < 2 ^ 64) (h16 : 16 ≤ buf.length) (hlh : h.length < 2 ^ 64)
+    (hmatch : AuthId.matching X ov w (buf.take 16) g.keys = PWGen.Res.ok (w', RResult.ok (some key)))
+    (hopen : Encrypt.open_header X ov key buf = PWGen.Res.ok (src', RResult.ok (some h))) :
+    match parseRequest C X.utf8_ok h with
+    | .ok (s, mask, sec, cmd, addr) =>
+      ∃ x, Octo.VmessAddrGen.toAddr x = addr ∧ s = ⟨(h.drop 1).take 16, (h.drop 17).take 16, h.getD 33 0⟩ ∧ mask = (h.getD 34 0).toNat ∧
+        (hdrOf h x key).command = cmdG cmd ∧
+        ServerAeadCodec.Decoder_decode X ov g w buf =
+          serverFinish X ov g w' src' (hdrOf h x key) (X.server_session_new s.reqIv s.reqKey s.respHeader)
+    | .panic => False
+    | _ => ServerAeadCodec.Decoder_decode X ov g w buf = PWGen.Res.ok (g, w', src', RResult.err) := by
+  have h16' : ¬ buf.length < 16 := by omega
+  rw [ServerAeadCodec.Decoder_decode]
+  simp only [hs, len_lt16 buf hl, h16', decide_false, Bool.false_eq_true, if_false, bind_next, slice16 buf h16, hmatch, call_ok,
+    question_ok, hopen]
+  have hck := Octo.VmessAddrGen.check_eq ov h hlh
+  rcases Octo.VmessAddrGen.headerGuard_cases h with hg | hg
+  · -- the guard holds
+    rw [hg] at hck
+    have hcheck : Octo.VmessAddrGen.check_header_length ov h = PWGen.Res.ok (Octo.VmessAddrGen.RResult.ok ()) := by
+      cases hx : Octo.VmessAddrGen.check_header_length ov h with
+      | panic => rw [hx] at hck; simp [Octo.VmessAddrGen.embedCheck] at hck
+      | ok r => cases r with
+        | ok u => rfl
+        | err => rw [hx] at hck; simp [Octo.VmessAddrGen.embedCheck] at hck
+    obtain ⟨h41, al, hal, hlen⟩ := (Octo.VmessAddrGen.headerGuard_ok_iff h).mp hg
+    obtain ⟨_, _, _, _, hr, _, _⟩ := Vmess.c07_vmess_parseRequest_reads_in_bounds X.utf8_ok h al (by omega) hal (by omega)
+    have hpl : (U8.as_usize (h.getD 35 0 >>> 4)).toNat = Vmess.padLenOf h := pad_toNat' _
+    have hsub : U64.subOk (Cursor.len h) (4 : Usize) = true := by
+      simp only [U64.subOk, decide_eq_true_eq, len_toNat h hlh]; show 4 ≤ _; omega
+    have hsl : ∀ ρ, (Flow.slice_to h (Cursor.len h - (4 : Usize)) : Flow _ ρ) = Flow.next (h.take (h.length - 4)) := by
+      intro ρ
+      have e : (Cursor.len h - (4 : Usize)).toNat = h.length - 4 := by
+        rw [Octo.VmessBodyGen.sub_toNat _ _ (by rw [len_toNat h hlh]; show 4 ≤ _; omega), len_toNat h hlh]; rfl
+      simp only [Flow.slice_to, e]; rw [if_pos (by omega)]
+    have e1 : (1 : Usize).toNat = 1 := rfl
+    rw [Vmess.parseRequest_eq, if_neg (by omega), hal]
+    simp only []
+    rw [if_neg (by omega)]
+    simp only [hcheck, call_ok, bind_next, RResult.ofVm, question_ok, hsub, arith_true, hsl, get_u8_zero h (by omega),
+      copy16_drop h 1 (by omega), copy16_drop h 17 (by omega), get_u8_drop h 33 (by omega), get_u8_drop h 34 (by omega),
+      get_u8_drop h 35 (by omega), from_u8_eval, advance_drop h 36 1 (by rw [e1]; omega), e1, get_u8_drop h 37 (by omega),
+      RequestCommand.as_u8]
+    have cmd_bad : ∀ c : UInt8, (c.toNat ≠ 1 ∧ c.toNat ≠ 2) → ((c != 1) && (c != 2)) = true := by
+      intro c hc
+      simp only [ne_eq, Octo.VmessAddrGen.u8_toNat_eq_1, Octo.VmessAddrGen.u8_toNat_eq_2] at hc
+      simp [hc.1, hc.2]
+    have cmd_good : ∀ c : UInt8, ¬ (c.toNat ≠ 1 ∧ c.toNat ≠ 2) → ((c != 1) && (c != 2)) = false := by
+      intro c hc
+      simp only [ne_eq, Octo.VmessAddrGen.u8_toNat_eq_1, Octo.VmessAddrGen.u8_toNat_eq_2] at hc
+      by_cases a1 : c = 1
+      · simp [a1]
+      · by_cases a2 : c = 2
+        · simp [a2]
+        · exact absurd ⟨a1, a2⟩ hc
+    have cmd_eq : ∀ c : UInt8, (if c == 1 then RequestCommand.TCP else RequestCommand.UDP) = cmdG (if c.toNat = 1 then Cmd.tcp else Cmd.udp) := by
+      intro c
+      by_cases a1 : c = 1
+      · subst a1; rfl
+      · have : ¬ c.toNat = 1 := by rwa [Octo.VmessAddrGen.u8_toNat_eq_1]
+        simp [a1, this, cmdG]
+    by_cases hc : (h.getD 37 0).toNat ≠ 1 ∧ (h.getD 37 0).toNat ≠ 2
+    · rw [if_pos hc]
+      simp only [cmd_bad _ hc, if_true, bind_ret, run_ret]
+    · rw [if_neg hc]
+      simp only [cmd_good _ hc, Bool.false_eq_true, if_false, bind_next]
+      have hcmdv := cmd_eq (h.getD 37 0)
+      rcases Bool.eq_false_or_eq_true (h.getD 37 0 == 1) with hb | hb
+      all_goals (
+        simp only [hb, ↓reduceIte, Bool.false_eq_true, bind_next] at hcmdv ⊢
+        have hrd := Octo.VmessAddrGen.read_eq ov X.utf8_ok (h.drop 38)
+        cases hx : Octo.VmessAddrGen.read_address_port ov X.utf8_ok (h.drop 38) with
+        | panic =>
+          rw [hx] at hrd; simp only [Octo.VmessAddrGen.embedRead] at hrd
+          rcases hr with hr | ⟨addr, hr⟩ <;> rw [hr] at hrd <;> cases hrd
+        | ok v =>
+          obtain ⟨r, res⟩ := v
+          cases res with
+          | err =>
+            rw [hx] at hrd; simp only [Octo.VmessAddrGen.embedRead] at hrd
+            rw [← hrd]
+            simp only [call_ok, bind_next, RResult.ofVm, question_err, bind_ret, run_ret]
+          | ok x =>
+            rw [hx] at hrd; simp only [Octo.VmessAddrGen.embedRead] at hrd
+            rcases hr with hr | ⟨addr, hr⟩
+            · rw [hr] at hrd; cases hrd
+            · rw [hr] at hrd
+              simp only [Octo.Res.ok.injEq, Prod.mk.injEq] at hrd
+              obtain ⟨hxa, hrr⟩ := hrd
+              subst hrr
+              rw [hr]
+              simp only []
+              have hfnv := fnv_test A (h.take (h.length - 4)) ((h.drop (41 + al + Vmess.padLenOf h)).take 4)
+                (by simp [List.length_take, List.length_drop]; omega)
+              simp only [bind_next, call_ok, RResult.ofVm, question_ok, advance_drop h (41 + al) _ (by rw [hpl]; omega), hpl,
+                get_u32_drop h (41 + al + Vmess.padLenOf h) (by omega), hfnv, List.drop_drop]
+              by_cases hf : rdBE ((h.drop (41 + al + Vmess.padLenOf h)).take 4) ≠ C.fnv1a32 (h.take (h.length - 4))
+              · rw [if_pos hf]
+                simp only [decide_eq_true hf, if_true, bind_ret, run_ret]
+              · rw [if_neg hf]
+                simp only [decide_eq_false hf, Bool.false_eq_true, if_false, bind_next, from_mask_eval, header_new_eval, call_ok]
+                refine ⟨x, hxa, ?_, ?_, ?_, ?_⟩
+                · first | rfl | trivial
+                · first | rfl | trivial
+                · simp only [hdrOf, hb, ↓reduceIte, Bool.false_eq_true]; exact hcmdv
+                · simp only [serverFinish, hdrOf, hb, ↓reduceIte, Bool.false_eq_true]
+                  generalize X.new_decoder _ (.ServerSession (X.server_session_new ((h.drop 1).take 16) ((h.drop 17).take 16) (h.getD 33 0))) = nd
+                  cases nd with
+                  | mk ds rr =>
+                    cases ds with
+                    | ClientSession cs => simp only [bind_next, Flow.as_server, bind_panic, run_panic']
+                    | ServerSession ss =>
+                      cases rr with
+                      | err => simp only [bind_next, as_server_ok, question_err, bind_ret, run_ret]
+                      | ok d =>
+                        simp only [bind_next, as_server_ok, question_ok]
+                        cases hdh : ServerAeadCodec.decode_header X ov (src') _ ss d with
+                        | panic => simp only [call_panic, bind_panic, run_panic']
+                        | ok v => obtain ⟨a, b, c, d', e⟩ := v; simp only [call_ok, bind_next, run_ret])
+  · -- the guard refuses
+    rw [hg] at hck
+    have hcheck : Octo.VmessAddrGen.check_header_length ov h = PWGen.Res.ok Octo.VmessAddrGen.RResult.err := by
+      cases hx : Octo.VmessAddrGen.check_header_length ov h with
+      | panic => rw [hx] at hck; simp [Octo.VmessAddrGen.embedCheck] at hck
+      | ok r => cases r with
+        | ok u => rw [hx] at hck; simp [Octo.VmessAddrGen.embedCheck] at hck
+        | err => rfl
+    rw [Octo.VmessAddrGen.parseRequest_guard_err C X.utf8_ok h hg]
+    simp only [hcheck, call_ok, bind_next, RResult.ofVm, question_err, bind_ret, run_ret]
+
+end parse
+
+/-! ## Part 6 — the body codec cannot change the implementor behind `&mut dyn Session` (partial-correctness calculus) -/
+section kind
+open Octo.VmessBodyGen (LoopExit)
+variable {α β σ ρ : Type}
+
+/-- which implementor of `trait Session` a `DynSession` is -/
+def kind : DynSession → Bool
+  | .ClientSession _ => true
+  | .ServerSession _ => false
+
+theorem kind_chunk_put (s : DynSession) (v : List UInt8) : kind (DynSession.chunk_nonce_put s v) = kind s := by cases s <;> rfl
+theorem kind_dec_put (s : DynSession) (v : List UInt8) : kind (DynSession.decoder_nonce_mut_put s v) = kind s := by cases s <;> rfl
+theorem kind_enc_put (s : DynSession) (v : List UInt8) : kind (DynSession.encoder_nonce_mut_put s v) = kind s := by cases s <;> rfl
+
+/-- weak postcondition: IF the computation falls through / returns, the value satisfies `Qn` / `Qr` (a panic satisfies it) -/
+def PostW (Qn : α → Prop) (Qr : ρ → Prop) : Flow α ρ → Prop
+  | .next a => Qn a
+  | .ret r => Qr r
+  | .panic => True
+
+theorem postW_bind (Qn : β → Prop) (Qr : ρ → Prop) (x : Flow α ρ) (k : α → Flow β ρ)
+    (h : PostW (fun a => PostW Qn Qr (k a)) Qr x) : PostW Qn Qr (x.bind k) := by
+  cases x <;> exact h
+theorem postW_next (Qn : α → Prop) (Qr : ρ → Prop) (a : α) (h : Qn a) : PostW Qn Qr (Flow.next a) := h
+theorem postW_ret (Qn : α → Prop) (Qr : ρ → Prop) (r : ρ) (h : Qr r) : PostW Qn Qr (Flow.ret r : Flow α ρ) := h
+theorem postW_call (Qn : α → Prop) (Qr : ρ → Prop) (e : PWGen.Res α) (h : ∀ a, Qn a) :
+    PostW Qn Qr (Octo.VmessBodyGen.Flow.call e : Flow α ρ) := by
+  cases e <;> simp [Octo.VmessBodyGen.Flow.call, PostW, h]
+theorem postW_question (Qn : α → Prop) (Qr : ρ → Prop) (r : RResult α) (e : ρ) (h : ∀ a, Qn a) (he : Qr e) :
+    PostW Qn Qr (Flow.question r e) := by
+  cases r <;> simp [Flow.question, PostW, h, he]
+theorem postW_check (Qn : Unit → Prop) (Qr : ρ → Prop) (c : Bool) (h : Qn ()) : PostW Qn Qr (Flow.check c : Flow Unit ρ) := by
+  cases c <;> simp [Flow.check, PostW, h]
+theorem postW_arith (Qn : Unit → Prop) (Qr : ρ → Prop) (ov c : Bool) (h : Qn ()) : PostW Qn Qr (Flow.arith ov c : Flow Unit ρ) :=
+  postW_check Qn Qr _ h
+theorem postW_split_to (Qn : Cursor × Cursor → Prop) (Qr : ρ → Prop) (b : Cursor) (n : Usize) (h : ∀ a, Qn a) :
+    PostW Qn Qr (Flow.split_to b n : Flow _ ρ) := by
+  unfold Flow.split_to; split <;> simp [PostW, h]
+theorem postW_advance (Qn : Cursor → Prop) (Qr : ρ → Prop) (b : Cursor) (n : Usize) (h : ∀ a, Qn a) :
+    PostW Qn Qr (Flow.advance b n : Flow _ ρ) := by
+  unfold Flow.advance; split <;> simp [PostW, h]
+theorem postW_ite (Qn : α → Prop) (Qr : ρ → Prop) (c : Prop) [Decidable c] (x y : Flow α ρ) (hx : PostW Qn Qr x) (hy : PostW Qn Qr y) :
+    PostW Qn Qr (if c then x else y) := by split <;> assumption
+
+/-- loop rule (partial correctness): an invariant that every fall-through keeps; `break` → the loop's postcondition -/
+theorem postW_loop (body : σ → Flow σ (LoopExit σ ρ)) (I : σ → Prop) (Qn : σ → Prop) (Qr : ρ → Prop)
+    (hstep : ∀ s, I s → PostW I (fun e => match e with | .brk s' => Qn s' | .ret r => Qr r) (body s)) :
+    ∀ (n : Nat) (s : σ), I s → PostW Qn Qr (Octo.VmessBodyGen.Flow.loopFuel body n s) := by
+  intro n
+  induction n with
+  | zero => intro s _; simp [Octo.VmessBodyGen.Flow.loopFuel, PostW]
+  | succ n ih =>
+    intro s hI
+    have := hstep s hI
+    rw [Octo.VmessBodyGen.Flow.loopFuel]
+    cases hb : body s with
+    | next s' => rw [hb] at this; exact ih s' this
+    | ret e => rw [hb] at this; cases e <;> exact this
+    | panic => simp [PostW]
+
+theorem run_postW (f : Flow Empty ρ) (Q : ρ → Prop) (h : PostW (fun _ => True) Q f) (r : ρ) (hr : Flow.run f = PWGen.Res.ok r) : Q r := by
+  cases f with
+  | next e => exact nomatch e
+  | ret r' => simp only [Flow.run, PWGen.Res.ok.injEq] at hr; subst hr; exact h
+  | panic => simp [Flow.run] at hr
+
+end kind
+
+section kindbody
+open Octo.VmessBodyGen (LoopExit AEADBodyCodec.decode_payload AEADBodyCodec.decode_packet)
+variable {CM XR RNG : Type} (B : Octo.VmessBodyGen.Ext CM XR RNG)
+
+/-- **`decode_payload` keeps the implementor**: whatever it returns, the session is still of the kind it was given -/
+theorem decode_payload_kind (ov : Bool) (g : AEADBodyCodec CM XR) (src : Cursor) (s : DynSession)
+    (r : AEADBodyCodec CM XR × Cursor × DynSession × RResult (Option Cursor))
+    (h : Octo.VmessBodyGen.AEADBodyCodec.decode_payload B ov g src s = PWGen.Res.ok r) : kind r.2.2.1 = kind s := by
+  unfold Octo.VmessBodyGen.AEADBodyCodec.decode_payload at h
+  refine run_postW _ (fun r => kind r.2.2.1 = kind s) ?_ r h
+  refine postW_bind _ _ _ _ ?_
+  refine postW_loop _ (fun st => kind st.2.2.1 = kind s) _ _ ?_ _ _ rfl
+  · intro ⟨g1, src1, s1, dst1⟩ hI
+    simp only at hI ⊢
+    split
+    · refine postW_bind _ _ _ _ (postW_call _ _ _ ?_)
+      intro a; exact hI
+    · refine postW_bind _ _ _ _ (postW_call _ _ _ ?_); intro sb
+      refine postW_bind _ _ _ _ (postW_ite _ _ _ _ _ (postW_ite _ _ _ _ _ hI hI) ?_)
+      show PostW _ _ _
+      refine postW_bind _ _ _ _ (postW_split_to _ _ _ _ ?_); intro sp
+      refine postW_bind _ _ _ _ (postW_call _ _ _ ?_); intro ds
+      refine postW_bind _ _ _ _ (postW_question _ _ _ _ ?_ ?_)
+      · intro l; show kind _ = kind s; rw [kind_chunk_put]; exact hI
+      · show kind _ = kind s; rw [kind_chunk_put]; exact hI
+    · refine postW_bind _ _ _ _ (postW_bind _ _ _ _ (postW_arith _ _ _ _ (postW_ite _ _ _ _ _ hI ?_)))
+      show PostW _ _ _
+      refine postW_bind _ _ _ _ (postW_ite _ _ _ _ _ (postW_ite _ _ _ _ _ hI hI) ?_)
+      show PostW _ _ _
+      refine postW_bind _ _ _ _ (postW_arith _ _ _ _ ?_)
+      refine postW_bind _ _ _ _ (postW_split_to _ _ _ _ ?_); intro sp
+      refine postW_bind _ _ _ _ (postW_call _ _ _ ?_); intro op
+      refine postW_bind _ _ _ _ (postW_question _ _ _ _ ?_ ?_)
+      · intro u
+        refine postW_bind _ _ _ _ (postW_advance _ _ _ _ ?_); intro ad
+        show kind _ = kind s; rw [kind_dec_put]; exact hI
+      · show kind _ = kind s; rw [kind_dec_put]; exact hI
+
+/-- **`decode_packet` keeps the implementor** -/
+theorem decode_packet_kind (ov : Bool) (g : AEADBodyCodec CM XR) (src : Cursor) (s : DynSession)
+    (r : AEADBodyCodec CM XR × Cursor × DynSession × RResult (Option Cursor))
+    (h : Octo.VmessBodyGen.AEADBodyCodec.decode_packet B ov g src s = PWGen.Res.ok r) : kind r.2.2.1 = kind s := by
+  unfold Octo.VmessBodyGen.AEADBodyCodec.decode_packet at h
+  refine run_postW _ (fun r => kind r.2.2.1 = kind s) ?_ r h
+  refine postW_bind _ _ _ _ ?_
+  refine postW_loop _ (fun st => kind st.2.2 = kind s) _ _ ?_ _ _ rfl
+  intro ⟨g1, src1, s1⟩ hI
+  simp only at hI ⊢
+  split
+  · refine postW_bind _ _ _ _ (postW_call _ _ _ ?_)
+    intro a; exact hI
+  · refine postW_bind _ _ _ _ (postW_call _ _ _ ?_); intro sb
+    refine postW_bind _ _ _ _ (postW_ite _ _ _ _ _ hI ?_)
+    show PostW _ _ _
+    refine postW_bind _ _ _ _ (postW_split_to _ _ _ _ ?_); intro sp
+    refine postW_bind _ _ _ _ (postW_call _ _ _ ?_); intro ds
+    refine postW_bind _ _ _ _ (postW_question _ _ _ _ ?_ ?_)
+    · intro l; show kind _ = kind s; rw [kind_chunk_put]; exact hI
+    · show kind _ = kind s; rw [kind_chunk_put]; exact hI
+  · refine postW_bind _ _ _ _ (postW_bind _ _ _ _ (postW_arith _ _ _ _ (postW_ite _ _ _ _ _ hI ?_)))
+    show PostW _ _ _
+    refine postW_bind _ _ _ _ (postW_ite _ _ _ _ _ hI ?_)
+    show PostW _ _ _
+    refine postW_bind _ _ _ _ (postW_arith _ _ _ _ ?_)
+    refine postW_bind _ _ _ _ (postW_split_to _ _ _ _ ?_); intro sp
+    refine postW_bind _ _ _ _ (postW_call _ _ _ ?_); intro op
+    refine postW_bind _ _ _ _ (postW_question _ _ _ _ ?_ ?_)
+    · intro u
+      refine postW_bind _ _ _ _ (postW_advance _ _ _ _ ?_); intro ad
+      show kind _ = kind s; rw [kind_dec_put]; exact hI
+    · show kind _ = kind s; rw [kind_dec_put]; exact hI
+
+end kindbody
+
+/-! ## Part 7 — `decode_header` / `decode_body` / the `Ready` state = the model's body step -/
+section body
+open Octo.VmessBodyGen (Rel RelN SessD embedOut embedPkt)
+variable {CM XR W GCM : Type} {X : Ext CM XR W GCM} {C : Crypto}
+
+theorem kind_server (d : DynSession) (h : kind d = kind (.ServerSession s0)) : ∃ s, d = .ServerSession s := by
+  cases d with
+  | ServerSession s => exact ⟨s, rfl⟩
+  | ClientSession s => simp [kind] at h
+
+/-- one `decode_payload` on a server session: the model's run of body units; the session is still a `ServerSession` -/
+theorem payload_server (B : Octo.VmessBodyGen.ExtOk X.body C) (hC : C.Lawful) (ov : Bool) (d : AEADBodyCodec CM XR) (b : Body)
+    (src : Bytes) (sess : ServerSession) (h : RelN B d b) (hs : SessD (.ServerSession sess) b) (h64 : src.length < 2 ^ 64) :
+    ∃ d' sess', Octo.VmessBodyGen.AEADBodyCodec.decode_payload X.body ov d src (.ServerSession sess) =
+        PWGen.Res.ok (d', (Fr.run (Body.unit C) b src).buf, .ServerSession sess', embedOut (Fr.run (Body.unit C) b src)) ∧
+      RelN B d' (Fr.run (Body.unit C) b src).st ∧ SessD (.ServerSession sess') (Fr.run (Body.unit C) b src).st := by
+  obtain ⟨⟨d', src', ds, res⟩, he, h1, h2, h3, h4⟩ := Octo.VmessBodyGen.decode_payload_spec B hC ov d b src (.ServerSession sess) h hs h64
+  obtain ⟨sess', rfl⟩ := kind_server ds (decode_payload_kind X.body ov d src _ _ he)
+  subst h3; subst h4
+  exact ⟨d', sess', he, h1, h2⟩
+
+theorem packet_server (B : Octo.VmessBodyGen.ExtOk X.body C) (hC : C.Lawful) (ov : Bool) (d : AEADBodyCodec CM XR) (b : Body)
+    (src : Bytes) (sess : ServerSession) (h : RelN B d b) (hs : SessD (.ServerSession sess) b) (h64 : src.length < 2 ^ 64) :
+    ∃ d' sess', Octo.VmessBodyGen.AEADBodyCodec.decode_packet X.body ov d src (.ServerSession sess) =
+        PWGen.Res.ok (d', (bodyDrainPacket C 3 b src).2.1, .ServerSession sess', embedPkt (bodyDrainPacket C 3 b src).2.2) ∧
+      RelN B d' (bodyDrainPacket C 3 b src).1 ∧ SessD (.ServerSession sess') (bodyDrainPacket C 3 b src).1 ∧
+      (bodyDrainPacket C 3 b src).2.2 ≠ .panic := by
+  obtain ⟨⟨d', src', ds, res⟩, he, h1, h2, h3, h4, h5⟩ := Octo.VmessBodyGen.decode_packet_spec B hC ov d b src (.ServerSession sess) h hs h64
+  obtain ⟨sess', rfl⟩ := kind_server ds (decode_packet_kind X.body ov d src _ _ he)
+  subst h3; subst h4
+  exact ⟨d', sess', he, h1, h2, h5⟩
+
+/-- the model's item of a generated message -/
+def itemOf : InboundIn → Item
+  | .ConnectTcp d a => ⟨.connect, d, some (Octo.VmessAddrGen.toAddr a)⟩
+  | .RelayTcp d => ⟨.data, d, none⟩
+  | .RelayUdp d a => ⟨.udp, d, some (Octo.VmessAddrGen.toAddr a)⟩
+/-- the model's outcome of a generated result -/
+def resOf : RResult (Option InboundIn) → Octo.Res Item
+  | .ok none => .more
+  | .ok (some i) => .ok (itemOf i)
+  | .err => .err
+
+/-- **C04 — `decode_header`, TCP arm**: as soon as the header is complete the request is `ConnectTcp(first body bytes or EMPTY, address)`
+— also when no body chunk has arrived yet (`unwrap_or_default`); `Err` only when a buffered chunk fails; never a panic; buffer and
+new codec state are the model's run of body units -/
+theorem gen_decode_header_tcp (B : Octo.VmessBodyGen.ExtOk X.body C) (hC : C.Lawful) (ov : Bool) (hdr : RequestHeader)
+    (d : AEADBodyCodec CM XR) (b : Body) (src : Bytes) (sess : ServerSession) (hc : hdr.command = .TCP)
+    (h : RelN B d b) (hs : SessD (.ServerSession sess) b) (h64 : src.length < 2 ^ 64) :
+    ∃ d' sess', ServerAeadCodec.decode_header X ov src hdr sess d =
+        PWGen.Res.ok ((Fr.run (Body.unit C) b src).buf, hdr, sess', d',
+          if (Fr.run (Body.unit C) b src).failed then RResult.err
+          else RResult.ok (some (InboundIn.ConnectTcp (Fr.run (Body.unit C) b src).out hdr.address))) ∧
+      RelN B d' (Fr.run (Body.unit C) b src).st ∧ SessD (.ServerSession sess') (Fr.run (Body.unit C) b src).st := by
+  obtain ⟨d', sess', he, h1, h2⟩ := payload_server B hC ov d b src sess h hs h64
+  refine ⟨d', sess', ?_, h1, h2⟩
+  simp only [ServerAeadCodec.decode_header, hc, he, call_ok, bind_next, as_server_ok, embedOut]
+  by_cases hf : (Fr.run (Body.unit C) b src).failed = true
+  · simp only [hf, if_true, question_err, bind_ret, run_ret]
+  · simp only [hf, Bool.false_eq_true, if_false]
+    by_cases he' : (Fr.run (Body.unit C) b src).out.isEmpty = true
+    · have : (Fr.run (Body.unit C) b src).out = [] := List.isEmpty_iff.mp he'
+      simp only [he', if_true, question_ok, bind_next, Option.getD_none, run_ret]
+      rw [this]
+    · simp only [he', Bool.false_eq_true, if_false, question_ok, bind_next, Option.getD_some, run_ret]
+
+/-- **C02/C04 — `decode_header`, UDP arm**: `RelayUdp` only with a complete datagram chunk, else `Ok(None)`; = `bodyDrainPacket` -/
+theorem gen_decode_header_udp (B : Octo.VmessBodyGen.ExtOk X.body C) (hC : C.Lawful) (ov : Bool) (hdr : RequestHeader)
+    (d : AEADBodyCodec CM XR) (b : Body) (src : Bytes) (sess : ServerSession) (hc : hdr.command = .UDP)
+    (h : RelN B d b) (hs : SessD (.ServerSession sess) b) (h64 : src.length < 2 ^ 64) :
+    ∃ d' sess', ServerAeadCodec.decode_header X ov src hdr sess d =
+        PWGen.Res.ok ((bodyDrainPacket C 3 b src).2.1, hdr, sess', d',
+          match (bodyDrainPacket C 3 b src).2.2 with
+          | .ok o => RResult.ok (some (InboundIn.RelayUdp o hdr.address))
+          | .more => RResult.ok none
+          | _ => RResult.err) ∧
+      RelN B d' (bodyDrainPacket C 3 b src).1 ∧ SessD (.ServerSession sess') (bodyDrainPacket C 3 b src).1 := by
+  obtain ⟨d', sess', he, h1, h2, h3⟩ := packet_server B hC ov d b src sess h hs h64
+  refine ⟨d', sess', ?_, h1, h2⟩
+  simp only [ServerAeadCodec.decode_header, hc, he, call_ok, bind_next, as_server_ok]
+  cases hr : (bodyDrainPacket C 3 b src).2.2 <;> simp only [embedPkt, question_ok, question_err, bind_next, bind_ret, run_ret]
+
+/-- `decode_body` (state `Ready`): TCP → `RelayTcp` of what the run released (nothing → `Ok(None)`), UDP → one datagram -/
+theorem gen_decode_body (B : Octo.VmessBodyGen.ExtOk X.body C) (hC : C.Lawful) (ov : Bool) (hdr : RequestHeader)
+    (d : AEADBodyCodec CM XR) (b : Body) (src : Bytes) (sess : ServerSession) (cmd : Cmd) (hc : hdr.command = cmdG cmd)
+    (h : RelN B d b) (hs : SessD (.ServerSession sess) b) (h64 : src.length < 2 ^ 64) :
+    ∃ d' sess' res, ServerAeadCodec.decode_body X ov src hdr sess d =
+        PWGen.Res.ok ((bodyDecode C cmd b src).2.1, hdr, sess', d', res) ∧
+      (match (bodyDecode C cmd b src).2.2 with
+        | .ok o => res = RResult.ok (some (if cmd = .tcp then InboundIn.RelayTcp o else InboundIn.RelayUdp o hdr.address))
+        | .more => res = RResult.ok none
+        | _ => res = RResult.err) ∧
+      RelN B d' (bodyDecode C cmd b src).1 ∧ SessD (.ServerSession sess') (bodyDecode C cmd b src).1 := by
+  cases cmd with
+  | tcp =>
+    obtain ⟨d', sess', he, h1, h2⟩ := payload_server B hC ov d b src sess h hs h64
+    simp only [cmdG] at hc
+    simp only [ServerAeadCodec.decode_body, hc, he, call_ok, bind_next, as_server_ok, embedOut, bodyDecode]
+    by_cases hf : (Fr.run (Body.unit C) b src).failed = true
+    · exact ⟨d', sess', RResult.err, by simp only [hf, if_true, question_err, bind_ret, run_ret], by simp [hf], by simpa [hf] using h1, by simpa [hf] using h2⟩
+    · by_cases he' : (Fr.run (Body.unit C) b src).out.isEmpty = true
+      · exact ⟨d', sess', RResult.ok none, by simp only [hf, he', Bool.false_eq_true, if_false, if_true, question_ok, bind_next, run_ret],
+          by simp [hf, he'], by simpa [hf, he'] using h1, by simpa [hf, he'] using h2⟩
+      · exact ⟨d', sess', RResult.ok (some (InboundIn.RelayTcp (Fr.run (Body.unit C) b src).out)), by simp only [hf, he', Bool.false_eq_true, if_false, question_ok, bind_next, run_ret],
+          by simp [hf, he'], by simpa [hf, he'] using h1, by simpa [hf, he'] using h2⟩
+  | udp =>
+    obtain ⟨d', sess', he, h1, h2, h3⟩ := packet_server B hC ov d b src sess h hs h64
+    simp only [cmdG] at hc
+    simp only [ServerAeadCodec.decode_body, hc, he, call_ok, bind_next, as_server_ok, bodyDecode]
+    cases hr : (bodyDrainPacket C 3 b src).2.2 with
+    | ok o => exact ⟨d', sess', RResult.ok (some (InboundIn.RelayUdp o hdr.address)), by simp only [embedPkt, question_ok, bind_next, run_ret], by simp, h1, h2⟩
+    | more => exact ⟨d', sess', RResult.ok none, by simp only [embedPkt, question_ok, bind_next, run_ret], by simp, h1, h2⟩
+    | err => exact ⟨d', sess', RResult.err, by simp only [embedPkt, question_err, bind_ret, run_ret], by simp, h1, h2⟩
+    | panic => exact absurd hr h3
+
+/-- **the `Ready` state of the generated `decode`**: an empty buffer is `Ok(None)` (state untouched); otherwise one `decode_body` -/
+theorem gen_server_ready (B : Octo.VmessBodyGen.ExtOk X.body C) (hC : C.Lawful) (ov : Bool) (g : ServerAeadCodec CM XR) (w : W)
+    (hdr : RequestHeader) (sess : ServerSession) (d : AEADBodyCodec CM XR) (b : Body) (src : Bytes) (cmd : Cmd)
+    (hst : g.decode_state = .Ready hdr sess d) (hc : hdr.command = cmdG cmd)
+    (h : RelN B d b) (hs : SessD (.ServerSession sess) b) (h64 : src.length < 2 ^ 64) :
+    if src = [] then ServerAeadCodec.Decoder_decode X ov g w src = PWGen.Res.ok (g, w, src, RResult.ok none)
+    else ∃ d' sess' res, ServerAeadCodec.Decoder_decode X ov g w src =
+        PWGen.Res.ok ({ g with decode_state := .Ready hdr sess' d' }, w, (bodyDecode C cmd b src).2.1, res) ∧
+      (match (bodyDecode C cmd b src).2.2 with
+        | .ok o => res = RResult.ok (some (if cmd = .tcp then InboundIn.RelayTcp o else InboundIn.RelayUdp o hdr.address))
+        | .more => res = RResult.ok none
+        | _ => res = RResult.err) ∧
+      RelN B d' (bodyDecode C cmd b src).1 ∧ SessD (.ServerSession sess') (bodyDecode C cmd b src).1 := by
+  by_cases he : src = []
+  · subst he
+    simp only [if_true, ServerAeadCodec.Decoder_decode, hst, Cursor.is_empty, List.isEmpty_nil, run_ret]
+  · simp only [he, if_false]
+    obtain ⟨d', sess', res, hb, h1, h2, h3⟩ := gen_decode_body B hC ov hdr d b src sess cmd hc h hs h64
+    refine ⟨d', sess', res, ?_, h1, h2, h3⟩
+    simp only [ServerAeadCodec.Decoder_decode, hst, is_empty_false src he, Bool.false_eq_true, if_false, hb, call_ok, bind_next, run_ret]
+
+end body
+
+/-! ## Part 8 — the generated server `decode` in state `Init` = the header phase of the model's `Server.decode` -/
+section init
+variable {CM XR W GCM : Type} {X : Ext CM XR W GCM} {C : Crypto}
+
+theorem openHeader_ok_len (hC : C.Lawful) (key src h : Bytes) (n : Nat) (ho : openHeader C key src = .ok (h, n)) :
+    h.length ≤ src.length := by
+  unfold openHeader at ho
+  split at ho
+  · cases ho
+  · simp only at ho
+    split at ho
+    · cases ho
+    · split at ho
+      · cases ho
+      · split at ho
+        · cases ho
+        · rename_i h' hh
+          simp only [Octo.Res.ok.injEq, Prod.mk.injEq] at ho
+          have := hC.open_len _ _ _ _ _ _ hh
+          simp only [List.length_take, List.length_drop] at this
+          rw [← ho.1]; omega
+
+theorem openHeader_ne_panic (C : Crypto) (key src : Bytes) : openHeader C key src ≠ .panic := by
+  unfold openHeader
+  split
+  · simp
+  · simp only []
+    split
+    · simp
+    · split
+      · simp
+      · split <;> simp
+
+/-- **the header phase of the generated server = the model's `Server.decode`** (state `Init`, ≥ 16 bytes, inside the i64 guard):
+the SAME decisions in the SAME order on the SAME data, never a panic —
+* C06: nothing happens unless `authIdMatch` finds a CONFIGURED key under which the first 16 bytes decrypt to a valid CRC (no key, or an
+  all-zero / absent credential that is not in the table → `Err`, nothing consumed, state `Init`);
+* C10: the time window `|t − now| ≤ 120` (both sides) is part of `authIdMatch`, evaluated on the first 16 bytes, the clock unchanged;
+* C04: `Ok(None)` with the buffer untouched until the sealed header is complete (`openHeader = more`); `Err` untouched when not authentic;
+* C07: an authentic header that `parseRequest` refuses (any cut, inconsistent lengths, unknown type / command, checksum) → `Err`, the
+  sealed header consumed, state `Init`; `parseRequest` never panics and neither does the code;
+* an accepted header → `serverFinish` (new_decoder, `decode_header`, state `Ready`) on exactly the model's fields. -/
+theorem gen_server_init (A : HExtOk X C) (hC : C.Lawful) (ov : Bool) (g : ServerAeadCodec CM XR) (w : W) (buf : Bytes)
+    (hs : g.decode_state = .Init) (hl : buf.length < 2 ^ 64) (h16 : 16 ≤ buf.length)
+    (hguard : MatchGuard C (buf.take 16) g.keys (A.nowOf w)) :
+    ∃ w', A.nowOf w' = A.nowOf w ∧
+      match authIdMatch C (buf.take 16) g.keys (A.nowOf w) with
+      | none => ServerAeadCodec.Decoder_decode X ov g w buf = PWGen.Res.ok (g, w', buf, RResult.err)
+      | some key =>
+        match openHeader C key buf with
+        | .more => ServerAeadCodec.Decoder_decode X ov g w buf = PWGen.Res.ok (g, w', buf, RResult.ok none)
+        | .err => ServerAeadCodec.Decoder_decode X ov g w buf = PWGen.Res.ok (g, w', buf, RResult.err)
+        | .panic => False
+        | .ok (h, n) =>
+          match parseRequest C X.utf8_ok h with
+          | .ok (s, mask, sec, cmd, addr) =>
+            ∃ x, Octo.VmessAddrGen.toAddr x = addr ∧ s = ⟨(h.drop 1).take 16, (h.drop 17).take 16, h.getD 33 0⟩ ∧
+              mask = (h.getD 34 0).toNat ∧ (hdrOf h x key).command = cmdG cmd ∧
+              ServerAeadCodec.Decoder_decode X ov g w buf =
+                serverFinish X ov g w' (buf.drop n) (hdrOf h x key) (X.server_session_new s.reqIv s.reqKey s.respHeader)
+          | .panic => False
+          | _ => ServerAeadCodec.Decoder_decode X ov g w buf = PWGen.Res.ok (g, w', buf.drop n, RResult.err) := by
+  obtain ⟨w', hm, hw⟩ := matching_eq A hC ov (buf.take 16) (by simp [List.length_take]; omega) g.keys w hguard
+  refine ⟨w', hw, ?_⟩
+  cases hk : authIdMatch C (buf.take 16) g.keys (A.nowOf w) with
+  | none =>
+    rw [hk] at hm
+    exact gen_server_gate ov g w buf hs hl h16 w' hm
+  | some key =>
+    rw [hk] at hm
+    simp only []
+    have hop := open_header_eq A hC ov key buf hl
+    have h16' : ¬ buf.length < 16 := by omega
+    cases ho : openHeader C key buf with
+    | more =>
+      rw [ho] at hop
+      simp only [embedOpen] at hop
+      rw [ServerAeadCodec.Decoder_decode]
+      simp only [hs, len_lt16 buf hl, h16', decide_false, Bool.false_eq_true, if_false, bind_next, slice16 buf h16, hm, call_ok,
+        question_ok, hop, bind_ret, run_ret]
+    | err =>
+      rw [ho] at hop
+      simp only [embedOpen] at hop
+      rw [ServerAeadCodec.Decoder_decode]
+      simp only [hs, len_lt16 buf hl, h16', decide_false, Bool.false_eq_true, if_false, bind_next, slice16 buf h16, hm, call_ok,
+        question_ok, hop, question_err, bind_ret, run_ret]
+    | panic => exact absurd ho (openHeader_ne_panic C key buf)
+    | ok v =>
+      obtain ⟨h, n⟩ := v
+      rw [ho] at hop
+      simp only [embedOpen] at hop
+      have hlh : h.length < 2 ^ 64 := Nat.lt_of_le_of_lt (openHeader_ok_len hC key buf h n ho) hl
+      exact gen_server_parse A ov g w w' buf (buf.drop n) key h hs hl h16 hlh hm hop
+
+end init
 
 /-! ## the i64 edge of the time window (difference between the code and the model's `authIdMatch`) -/
 
